@@ -6,6 +6,7 @@ import (
 	"errors"
 	"fmt"
 	"io"
+	"math"
 	"os"
 
 	bin "github.com/gagliardetto/binary"
@@ -101,6 +102,10 @@ func (r *Reader) GetMeta(key string) string {
 	return r.meta[key]
 }
 
+// maxHeaderSize bounds the header size read from the file before it is used as an allocation size.
+// A header holds the magic, the version, the metadata and at most 65536 (prefix, offset) pairs of 10 bytes.
+const maxHeaderSize = 8 << 20
+
 func readHeaderSize(reader io.ReaderAt) (int64, error) {
 	// read header size:
 	headerSizeBuf := make([]byte, 4)
@@ -116,6 +121,9 @@ func readHeader(reader io.ReaderAt) (map[[2]byte]uint64, map[string]string, int6
 	headerSize, err := readHeaderSize(reader)
 	if err != nil {
 		return nil, nil, 0, fmt.Errorf("failed to read header size: %w", err)
+	}
+	if headerSize > maxHeaderSize {
+		return nil, nil, 0, fmt.Errorf("invalid header size: %d", headerSize)
 	}
 	// read header bytes:
 	headerBuf := make([]byte, headerSize)
@@ -152,6 +160,9 @@ func readHeader(reader io.ReaderAt) (map[[2]byte]uint64, map[string]string, int6
 		if err != nil {
 			return nil, nil, 0, fmt.Errorf("failed to read numMeta: %w", err)
 		}
+		if numMeta > uint64(decoder.Remaining()) {
+			return nil, nil, 0, fmt.Errorf("invalid numMeta: %d", numMeta)
+		}
 		meta := make(map[string]string, numMeta)
 		for i := uint64(0); i < numMeta; i++ {
 			key, err := decoder.ReadString()
@@ -171,6 +182,9 @@ func readHeader(reader io.ReaderAt) (map[[2]byte]uint64, map[string]string, int6
 		return nil, nil, 0, fmt.Errorf("failed to read numPrefixes: %w", err)
 	}
 	// prefix -> offset:
+	if numPrefixes > math.MaxUint16+1 {
+		return nil, nil, 0, fmt.Errorf("invalid numPrefixes: %d", numPrefixes)
+	}
 	prefixToOffset := make(map[[2]byte]uint64, numPrefixes)
 	for i := uint64(0); i < numPrefixes; i++ {
 		var prefix [2]byte
